@@ -829,6 +829,10 @@ class PerceptionAnalyzerBase(ABC):
         target_labels: List[str] = self.target_labels.copy()
         if "unknown" not in target_labels:
             target_labels.append("unknown")
+        # paired rows may carry labels that are not evaluation targets, e.g. `false_positive` ground truths
+        for label in pd.concat([gt_df["label"], est_df["label"]]).unique():
+            if label not in target_labels:
+                target_labels.append(label)
 
         gt_indices: np.ndarray = gt_df["label"].apply(lambda label: target_labels.index(label)).to_numpy()
         est_indices: np.ndarray = est_df["label"].apply(lambda label: target_labels.index(label)).to_numpy()
